@@ -249,3 +249,21 @@ pub fn sign2(r: &mut Rng, x: i128, y: i128) -> (i128, i128) {
     let (a, b) = match r.below(4) { 0 => (x, y), 1 => (-x, y), 2 => (x, -y), _ => (-x, -y) };
     (a, b)
 }
+
+/// (x, y, k): x*10^k / y = i128::MAX + r/y with 0 < r < y: the floor quotient is the largest coefficient
+/// and rounding up is not representable (1 <= k <= 3, y < 10^k coprime to 10)
+pub fn max_quotient_construct(r: &mut Rng) -> (i128, i128, u32) {
+    loop {
+        let k = 1 + r.below(3) as u32;
+        let pk = p10(k);
+        let mut y = 3 + r.below((pk - 3) as u64) as i128;
+        if y % 2 == 0 { y += 1; }
+        if y % 5 == 0 { y += 2; }
+        if y >= pk { continue; }
+        let (a, b) = (MAXC / pk, MAXC % pk);
+        let rem = (pk - (b * y) % pk) % pk;      // (MAX*y + rem) = 0 mod 10^k
+        if rem == 0 || rem >= y { continue; }
+        let x = a * y + (b * y + rem) / pk;
+        return (x, y, k);
+    }
+}
